@@ -18,7 +18,8 @@ from gen import resfile as rf
 import impl_model as im
 from props import c04
 
-THEOREMS = ['C19_refine_failure_restores', 'C19_refine_failed_iff', 'C19_refine_ins_is_model', 'C19_refine_success_reloads', 'C19_refine_example']
+THEOREMS = ['C19_refine_failure_restores', 'C19_refine_failed_iff', 'C19_refine_ins_is_model', 'C19_refine_success_reloads', 'C19_refine_example',
+            'C19_refine_crash_safe', 'C19_refine_trace_ends', 'C19_crash_example']
 IMPORTS = 'From SX Require Import Base.Prelude Base.Str Model.Refine.\n'
 
 FAKE = r'''#!/bin/sh
@@ -38,6 +39,9 @@ case "$FAKE_MODE" in
   missing_code) rm -f "$name.res"; exit 2 ;;
   garbage_fail) printf 'garbage garbage garbage' > "$name.res"; exit 1 ;;
   signal)     cp "$name.new" "$name.res"; kill -9 $$ ;;
+  crash_del)   rm -f "$name.res"; kill -9 $PPID; exit 0 ;;
+  crash_trunc) : > "$name.res"; kill -9 $PPID; exit 0 ;;
+  crash_new)   cp "$name.new" "$name.res"; kill -9 $PPID; exit 0 ;;
 esac
 exit 0
 '''
@@ -123,6 +127,25 @@ def run_refine(tmp, text, newtext, mode, cycles, keep=False, stem='m', lst='none
                 'saves': [open(os.path.join(tmp, 'shxsaves', f), 'rb').read().decode('utf-8', 'surrogateescape') for f in os.listdir(os.path.join(tmp, 'shxsaves'))] if os.path.isdir(os.path.join(tmp, 'shxsaves')) else [],
                 'shx': shx})
     return res
+
+
+def crash_run(tmp, text, newtext, variant, stem='m'):
+    """refine() in a child process that is killed (SIGKILL, by the stand-in for SHELXL) while SHELXL runs, after the stand-in has deleted,
+    truncated or replaced the result file: a crash point of C19_refine_crash_safe observed on the real code.  Returns the bytes on disk."""
+    import subprocess
+    import sys
+    for f in os.listdir(tmp):
+        p = os.path.join(tmp, f)
+        if f not in ('bin',):
+            shutil.rmtree(p) if os.path.isdir(p) else os.remove(p)
+    open(os.path.join(tmp, stem + '.res'), 'wb').write(text.encode('utf-8'))
+    open(os.path.join(tmp, stem + '.hkl'), 'w').write('   0   0   0    0.00    0.00\n')
+    open(os.path.join(tmp, stem + '.new'), 'wb').write(newtext.encode('utf-8'))
+    env = dict(os.environ, PATH=os.path.join(tmp, 'bin') + os.pathsep + os.environ.get('PATH', ''), FAKE_MODE='crash_' + variant)
+    code = ('from shelxfile.shelx.shelx import Shelxfile\ns = Shelxfile()\ns.read_file(%r)\ns.refine(4)\n' % (stem + '.res'))
+    pr = subprocess.run([sys.executable, '-c', code], cwd=tmp, env=env, stdout=subprocess.DEVNULL, stderr=subprocess.DEVNULL, timeout=60)
+    rd = lambda n: open(os.path.join(tmp, n), 'rb').read().decode('utf-8', 'surrogateescape') if os.path.exists(os.path.join(tmp, n)) else None
+    return {'returncode': pr.returncode, 'res': rd(stem + '.res'), 'bak': rd(stem + '.shx-bak')}
 
 
 def run(ctx):
@@ -214,6 +237,18 @@ def run(ctx):
                 coq_cases.append((text, newtext, mode, r))
                 if k < 1 and mode in ('ok', 'missing'):
                     common.sample(ctx, {'mode': mode, 'raised': r['raised'], 'res_restored': r['res'] == text, 'ins_head': (ins or '')[:200]})
+            # crash points: the Python process dies while SHELXL runs
+            if k % 3 == 0:
+                for variant in ('del', 'trunc', 'new'):
+                    cr = crash_run(tmp, text, newtext, variant, stem=STEMS[k % len(STEMS)])
+                    ev += 1
+                    hist['crash ' + variant] = hist.get('crash ' + variant, 0) + 1
+                    if cr['returncode'] != -9:
+                        ctx.notes.setdefault('coverage_extra', {})['crash_runs_not_killed'] = ctx.notes.get('coverage_extra', {}).get('crash_runs_not_killed', 0) + 1
+                    if text not in (cr['res'], cr['bak']):
+                        common.add_violation(ctx, 'after a crash of the process during the SHELXL run the previous model is neither in the .res file nor in the backup file',
+                                             {'text': text, 'mode': 'crash_' + variant}, 'previous .res bytes in .res or .shx-bak',
+                                             {'res': None if cr['res'] is None else cr['res'][:80], 'backup': None if cr['bak'] is None else cr['bak'][:80]})
             # histories: a successful run followed by a failing one in the same directory (the backup must be the one of the last run)
             for mode in sorted(FAILS):
                 r1 = run_refine(tmp, text, newtext, 'ok', 4)
@@ -262,7 +297,7 @@ def run(ctx):
                        'without a new result, empty, 4-byte and missing result file with exit 0 or 2, garbage with exit 1, killed by a signal) x requested cycles none / 0 / 4 / 12')
     ctx.notes.setdefault('coverage_extra', {})['mode_histogram'] = hist
     ctx.assumptions += ['SHELXL does not touch the .shx-bak file (hypothesis of the theorem; the stand-in never does)', 'the process runs in the directory of the .res file, as refine() requires',
-                        'crashes of the Python process itself between backup and restore are outside the model (runtime behaviour)']
+                        'crash points: proved for the model over every state of the protocol (C19_refine_crash_safe, a file copy taken as atomic); on the real code one crash point is observed - the process is killed while SHELXL runs, after the result file was deleted / truncated / replaced']
 
 
 def keys_coalesced(toks):
